@@ -70,6 +70,14 @@ pub const SNIPPETS: &[&str] = &[
     "r1 REAL ::= 3.14",
     "r2 REAL ::= { mantissa 1, base 2, exponent 3 }",
     "r3 REAL ::= PLUS-INFINITY",
+    // circular value references, alone and reached from a DEFAULT governed by a type reference
+    "cv1 BOOLEAN ::= cv2",
+    "cv2 BOOLEAN ::= cv1",
+    "cv3 INTEGER ::= cv4",
+    "cv4 INTEGER ::= cv3",
+    "Tcv ::= INTEGER",
+    "Scv ::= SEQUENCE { x Tcv DEFAULT cv3 }",
+    "cv5 INTEGER ::= cv5",
     "C1 ::= CLASS { &id INTEGER UNIQUE, &Type OPTIONAL, &val BOOLEAN DEFAULT TRUE } WITH SYNTAX { ID &id [TYPE &Type] [VAL &val] }",
     "o1 C1 ::= { ID 1 TYPE INTEGER }",
     "o2 C1 ::= { ID 2 }",
@@ -339,6 +347,14 @@ pub fn n_fixed_deep() -> usize {
 }
 
 pub fn gen_case(seed: u64, idx: u64, corpus: &Corpus, prefixes: &[(usize, usize)]) -> Case {
+    // inputs kept by the coverage-guided generator (c08fuzz.rs) live in an index space of their own
+    if idx >= crate::c08fuzz::FUZZ_BASE {
+        let l = crate::c08fuzz::listed();
+        return match l.get((idx - crate::c08fuzz::FUZZ_BASE) as usize) {
+            Some((name, text)) => Case { cat: "coverage-guided", input: text.clone(), origin: name.clone() },
+            None => Case { cat: "coverage-guided", input: String::new(), origin: "missing".into() },
+        };
+    }
     // the exhaustive prefix space comes first
     if (idx as usize) < prefixes.len() {
         let (fi, cut) = prefixes[idx as usize];
@@ -453,6 +469,32 @@ pub fn gen_case(seed: u64, idx: u64, corpus: &Corpus, prefixes: &[(usize, usize)
                     4 => s.push_str(&format!("Yg{i} ::= SEQUENCE {{ s a < G{j}, COMPONENTS OF G{} }}\n", rng.below(k))),
                     5 => s.push_str(&format!("Zg{i} ::= INTEGER (INCLUDES G{j})\n")),
                     _ => s.push_str(&format!("Cg{i} ::= INTEGER (0..vg{j})\n")),
+                }
+            }
+            // a graph of value references (chains, chains into cycles, self references), governed by built-in types or by
+            // types of the graph above, and used from a DEFAULT, a bound, a named number and an actual parameter
+            if rng.chance(1, 2) {
+                let kv = 1 + rng.below(4);
+                for i in 0..kv {
+                    let j = rng.below(kv);
+                    let ty = match rng.below(5) {
+                        0 => "BOOLEAN".to_string(),
+                        1 => format!("G{}", rng.below(k)),
+                        2 => "OCTET STRING".to_string(),
+                        _ => "INTEGER".to_string(),
+                    };
+                    let val = if rng.chance(1, 5) { "5".to_string() } else { format!("wv{j}") };
+                    s.push_str(&format!("wv{i} {ty} ::= {val}\n"));
+                }
+                for i in 0..rng.below(3) {
+                    let j = rng.below(kv);
+                    match rng.below(5) {
+                        0 => s.push_str(&format!("Uw{i} ::= SEQUENCE {{ x G{} DEFAULT wv{j} }}\n", rng.below(k))),
+                        1 => s.push_str(&format!("Uw{i} ::= SEQUENCE {{ x INTEGER DEFAULT wv{j}, y BOOLEAN DEFAULT wv{} }}\n", rng.below(kv))),
+                        2 => s.push_str(&format!("Uw{i} ::= INTEGER (wv{j}..wv{})\n", rng.below(kv))),
+                        3 => s.push_str(&format!("Uw{i} ::= INTEGER {{ n(wv{j}) }} (0..n)\n")),
+                        _ => s.push_str(&format!("Pw{i} {{ INTEGER: p }} ::= INTEGER (0..p)\nUw{i} ::= Pw{i} {{ wv{j} }}\n")),
+                    }
                 }
             }
             s.push_str("END\n");
@@ -846,12 +888,13 @@ fn run_shard(seed: u64, mut start: u64, end: u64, nfiles: usize, corpus: &Corpus
 pub fn run(ctx: &Ctx) -> Report {
     let mut rep = Report::new(
         "exploration",
-        "inputs: (a) EXHAUSTIVE every char-boundary prefix of the N smallest corpus modules (N=50 quick, 120 thorough); (b) seeded random: character soup, byte soup (lossy UTF-8), ASN.1 token soup, prefixes of snippet modules and corpus modules, 1-3 token-level mutations (delete/insert/replace/duplicate/swap/splice/delete-run) of the 892 corpus modules (<=24 kB) and of snippet modules, modules composed from a 120-entry library of exotic notation (MACRO, CLASS/objects/sets, TIME, REAL, selection, parameterization, cyclic type/value/object-set references, COMPONENTS OF, unsupported constraints), multi-byte characters at token boundaries, comments/strings left open at EOF, nesting to depth 10^4. Each case: compile_to_string with both backends, Display and contextualize of the error and of every warning, in a worker process with an 8 MiB main-thread stack. Non-trivial = case returned or died with a classified observation; distinct by input hash.",
+        "inputs: (a) EXHAUSTIVE every char-boundary prefix of the N smallest corpus modules (N=50 quick, 120 thorough); (b) seeded random: character soup, byte soup (lossy UTF-8), ASN.1 token soup, prefixes of snippet modules and corpus modules, 1-3 token-level mutations (delete/insert/replace/duplicate/swap/splice/delete-run) of the 892 corpus modules (<=24 kB) and of snippet modules, modules composed from a 120-entry library of exotic notation (MACRO, CLASS/objects/sets, TIME, REAL, selection, parameterization, cyclic type/value/object-set references, COMPONENTS OF, unsupported constraints), multi-byte characters at token boundaries, comments/strings left open at EOF, nesting to depth 10^4, random graphs of type references and of value references (chains into cycles, self references, used from DEFAULTs, bounds, named numbers, actual parameters); (c) COVERAGE-GUIDED: libFuzzer (cargo-fuzz, sanitizer-coverage build of the compiler from the working tree, 16 forked jobs, ASN.1 dictionary, inputs <= 1 KiB, seeded with the small corpus modules and 200 snippet modules) explores for 40 s (quick) / 900 s (thorough); every input it keeps (one per new coverage feature) and every crash / timeout / oom artifact is then a case of category `coverage-guided` for the same worker (the fuzzer only generates; the worker observes). Each case: compile_to_string with both backends, Display and contextualize of the error and of every warning, in a worker process with an 8 MiB main-thread stack. Non-trivial = case returned or died with a classified observation; distinct by input hash.",
     );
     rep.must_observe = vec!["cases_with_error_or_warning_rendered".into()];
     rep.assumptions = vec![
         "hang is decided on H3 linker steps (budget 64*(tokens+1)^2) sampled by an in-worker watchdog after 10 s, or on four gdb stack samples of the stuck worker taken 1.5 s apart: the same chain of compiler frames in every sample = the main thread spins inside one function; a watchdog firing with neither is inconclusive (slow, e.g. exponential backtracking, whose call chain keeps changing)".into(),
         "opt-level 1 with debug assertions and overflow checks (the profile build scripts / proc macros get)".into(),
+        "coverage-guided inputs are not reproducible from the seed alone (libFuzzer's fork mode is timing dependent); a violating input is copied to /verif/replay/C08/inputs and replayed from there".into(),
     ];
     let corpus = load_corpus();
     if corpus.files.is_empty() {
@@ -864,6 +907,16 @@ pub fn run(ctx: &Ctx) -> Report {
         let idx = c["idx"].as_u64().unwrap();
         let nfiles = c["nfiles_prefix"].as_u64().unwrap() as usize;
         let prefixes = prefix_space(&corpus, nfiles);
+        if idx >= crate::c08fuzz::FUZZ_BASE {
+            // a coverage-guided case is replayed from the copy of its input kept next to the replay file
+            let list = std::env::temp_dir().join(format!("vcheck-c08-replay-{}.list", std::process::id()));
+            let _ = std::fs::write(&list, format!("{}\n", c["input_file"].as_str().unwrap_or("")));
+            std::env::set_var("VERIF_C08_FUZZLIST", &list);
+            let r = run_shard(seed, crate::c08fuzz::FUZZ_BASE, crate::c08fuzz::FUZZ_BASE + 1, nfiles, &corpus, &prefixes);
+            let _ = std::fs::remove_file(&list);
+            rep.merge(r.rep);
+            return rep;
+        }
         let r = run_shard(seed, idx, idx + 1, nfiles, &corpus, &prefixes);
         rep.merge(r.rep);
         return rep;
@@ -874,14 +927,43 @@ pub fn run(ctx: &Ctx) -> Report {
     let total = prefixes.len() as u64 + n_fixed_deep() as u64 + nrand;
     rep.extra.insert("exhaustive_prefix_cases".into(), json!(prefixes.len()));
     rep.extra.insert("random_cases".into(), json!(nrand));
+    // coverage-guided generator: libFuzzer explores for a while, the worker then observes everything it kept
+    let fuzz_secs: u64 = std::env::var("VERIF_C08_FUZZ_SECS").ok().and_then(|s| s.parse().ok()).unwrap_or(ctx.pick(40, 900));
+    let mut fuzz_cases = 0u64;
+    if fuzz_secs > 0 {
+        match crate::c08fuzz::build() {
+            Ok(bin) => {
+                let seeds_corpus: Vec<(String, String)> = corpus.files.iter().filter(|f| f.1.len() <= crate::c08fuzz::MAX_LEN).take(120).cloned().collect();
+                let mut rng = Rng::for_case(ctx.seed, 0xF022, 0);
+                let seeds: Vec<String> = (0..200).map(|_| snippet_module(&mut rng)).collect();
+                if let Some(ex) = crate::c08fuzz::explore(&mut rep, &bin, ctx.seed, fuzz_secs, 16, &seeds_corpus, &seeds) {
+                    std::env::set_var("VERIF_C08_FUZZLIST", &ex.list);
+                    fuzz_cases = ex.n_files;
+                }
+            }
+            Err(e) => rep.inconclusive.push(format!("coverage-guided generator not available: {e}")),
+        }
+    }
     let shard = ctx.pick(2_000u64, 10_000);
     let nshards = total.div_ceil(shard);
+    let fuzz_shards = fuzz_cases.div_ceil(500);
     let acc = Acc::new(rep);
     let seed = ctx.seed;
-    par_for(nshards, |s| {
-        let a = s * shard;
-        let b = ((s + 1) * shard).min(total);
-        let r = run_shard(seed, a, b, nfiles, &corpus, &prefixes);
+    par_for(nshards + fuzz_shards, |s| {
+        let (a, b) = if s < nshards {
+            (s * shard, ((s + 1) * shard).min(total))
+        } else {
+            let k = s - nshards;
+            (crate::c08fuzz::FUZZ_BASE + k * 500, crate::c08fuzz::FUZZ_BASE + ((k + 1) * 500).min(fuzz_cases))
+        };
+        let mut r = run_shard(seed, a, b, nfiles, &corpus, &prefixes);
+        for v in r.rep.violations.iter_mut() {
+            if let Some(idx) = v.replay["idx"].as_u64().filter(|i| *i >= crate::c08fuzz::FUZZ_BASE) {
+                if let Some((_, text)) = crate::c08fuzz::listed().get((idx - crate::c08fuzz::FUZZ_BASE) as usize) {
+                    v.replay["input_file"] = json!(crate::c08fuzz::keep_for_replay(text));
+                }
+            }
+        }
         acc.with(|rp| {
             // max-type counters must be merged with max, not sum
             let (mt, md) = (
